@@ -24,7 +24,8 @@ def chain_check(ops, g, snapdir):
     prev_len = None
     live = {}
     for i, o in enumerate(ops):
-        p = os.path.join(snapdir, '%06d.img' % i)
+        # the harness numbers images by executed operation, including the STATE op after each mutating one
+        p = os.path.join(snapdir, '%06d.img' % own_first[i])
         if not os.path.exists(p):
             return {'kind': 'died', 'op_index': i, 'what': 'no image after this operation'}
         c = o['op']
@@ -192,7 +193,7 @@ def store_property(prop, tier, seed, histories, level_note, replay=None, snap=Fa
         print('replay: oracle=%s diff=%s' % (r['spec'] or r['other'], r['diff']))
     else:
         # corpus first
-        for f in sorted(glob.glob(os.path.join(VERIF, 'corpus', 'store', '*.json'))):
+        for f in sorted(glob.glob(os.path.join(VERIF, 'corpus', 'store', '*.json')) + glob.glob(os.path.join(VERIF, 'corpus', prop, '*.json'))):
             handle(ops_from_js(json.load(open(f))['ops']), 'corpus:' + os.path.basename(f))
         for i, ops in enumerate(histories(random.Random(seed * 1000003 + 17), path)):
             handle(ops, 'generated:%d' % i)
